@@ -485,7 +485,8 @@ func (p *provider) matchingVersionsWithPrereleases(ctx context.Context, req reso
 
 	debugf(p.rc, "filtering %v by %v\n", vs, constraint)
 
-	mvs, err = filterSlice(vs, func(v resolve.Version) (bool, error) {
+	// filterSlice reorders its argument; do not disturb the client's slice.
+	mvs, err = filterSlice(slices.Clone(vs), func(v resolve.Version) (bool, error) {
 		if v.VersionType != resolve.Concrete {
 			return false, nil
 		}
@@ -595,7 +596,8 @@ func (p *provider) getDependencies(ctx context.Context, v resolve.VersionKey, ex
 	// earlier (and several layers further away from the resolver), see
 	// https://github.com/pypa/pip/blob/21.1.3/src/pip/_vendor/pkg_resources/__init__.py#L3026
 	// for details.
-	return filterSlice(deps, func(d resolve.RequirementVersion) (bool, error) {
+	// filterSlice reorders its argument; do not disturb the client's slice.
+	return filterSlice(slices.Clone(deps), func(d resolve.RequirementVersion) (bool, error) {
 		env, ok := d.Type.GetAttr(dep.Environment)
 		if !ok {
 			// No environment markers, always keep.
